@@ -2,7 +2,7 @@
 import re
 
 from engines import wire, fmtargs
-from engines.paths import enumerate_paths, classify_return
+from engines.paths import enumerate_paths, classify_return, emptiness_of
 from engines.prog import cname, term_str
 from engines import terms as T
 from engines.terms import Aff
@@ -205,13 +205,7 @@ def run(ctx):
         if p.end != "return" or classify_return(p) != "ok":
             continue
         ends = [1 for pos, blk, t in p.calls() if wire.RX_END_PACKET.search(cname(t["func"]))]
-        empty = None
-        for i, blk in enumerate(p.blocks[:-1]):
-            t = er.term(blk)
-            if t["k"] == "switch" and "0" in t["vals"]:
-                v = p.origin_op(t["discr"], i)
-                if T.is_call(v, r"is_empty$") and T.is_field(T.peel(v[2][0]), "columns"):
-                    empty = p.blocks[i + 1] != t["tgts"][t["vals"].index("0")]
+        empty = emptiness_of(p, lambda x: T.is_field(x, "columns"))
         if empty:
             continue
         n += 1
